@@ -5,6 +5,11 @@ E1 = "symx"
 E2 = "sqlsem"
 E3 = "pybmc"
 CHECKS = {
+    "C02": dict(engine=E1, category="other",
+        technique="solver-chosen execution histories (CrossHair + z3, exhaustive per slice) over a 27-shape Core+ORM statement corpus run on an Engine with a shared compiled cache and differentially on an Engine with the cache disabled, over a recording DBAPI; plus symbolic execution of cache-key generation and literal type resolution on symbolic ints",
+        text="For every history of two executions (any statement of the corpus with any of 4 value sets, then any other) and every three-execution history within one shape, each execution reaches the DBAPI with exactly the SQL text and parameter values it has when the compiled cache is disabled -- so a cached compilation never delivers the values of the statement that populated the cache. For symbolic ints around each power-of-two boundary z3 decides that equal cache keys imply equal resolved bind types.",
+        note="Trusted: recording DBAPI (no rows are returned, so result rows are outside), DefaultDialect(paramstyle='named'), the cache-disabled engine as reference. Injectivity of cache keys w.r.t. statement structure is only exercised on the corpus.",
+        ref="DESIGN.md §4 C02"),
     "C04": dict(engine=E1, category="other",
         technique="(a) z3 enumeration of all collisions of the bind-name escaping table read from the compiler class, replayed through the public API on sqlite3; (b) solver-chosen bind-name assignments (CrossHair + z3, exhaustive per slice) over 12 statement shapes x 6 paramstyles executed on a real Engine with a recording DBAPI, differential against the literal_binds rendering",
         text="(b) For every paramstyle (qmark, format, numeric, numeric_dollar, named, pyformat), each of 12 statement shapes (select list, WHERE, repeated bind, CTE, scalar subquery+ORDER BY+LIMIT/OFFSET, HAVING, expanding IN, literal_execute, INSERT, UPDATE, text(), UNION) and every ordered assignment of 1-2 (thorough 3) bind names from a pool exercising every escape character, the statement and parameters the DBAPI receives, with each placeholder replaced by the value delivered for it, equal the literal_binds rendering -- on the first execution and on a cache-hitting re-execution with other values. (a) z3 finds every pair of characters the escaping maps together; each is executed on sqlite3.",
